@@ -107,11 +107,11 @@ theorem Batch.apply_verOf (b : Batch) (st : RStore) (k : Nat) : (b.apply st).ver
   cases b <;> rfl
 
 /-- sequential run of a write call from a state without a lock cell on its key: ten or eleven
-commands, no retry, and the result is what `decide` computed from the stored record -/
+commands, no retry, and the result is what `decideOp` computed from the stored record -/
 theorem runWriter_alone (st : RStore) (clock : Int) (op : WOp) (tok fresh : Nat)
     (hno : st.locks[op.svr.addr.key]? = none) :
     runWriter st clock (Writer.start op tok) fresh 16 =
-      match decide op (st.items[op.svr.addr.key]?) clock with
+      match decideOp op (st.items[op.svr.addr.key]?) clock with
       | .inl r => (((st.lockSetNX op.svr.addr.key tok).1).lockDel op.svr.addr.key,
                     { op, pc := .done r, tok, attemptsLeft := 4, committed := false })
       | .inr (b, r) => ((b.apply (st.lockSetNX op.svr.addr.key tok).1).lockDel op.svr.addr.key,
@@ -119,14 +119,14 @@ theorem runWriter_alone (st : RStore) (clock : Int) (op : WOp) (tok fresh : Nat)
   have h1 : st.lockSetNX op.svr.addr.key tok =
       ({ st.touchLock op.svr.addr.key (some tok) with locks := st.locks.insert op.svr.addr.key ⟨tok, true⟩ }, true) := by
     simp [lockSetNX, hno]
-  cases hd : decide op (st.items[op.svr.addr.key]?) clock with
+  cases hd : decideOp op (st.items[op.svr.addr.key]?) clock with
   | inl r =>
     simp [runWriter, wstep, Writer.start, h1, hd, touchLock]
   | inr br =>
     obtain ⟨b, r⟩ := br
     simp [runWriter, wstep, Writer.start, h1, hd, touchLock, Batch.apply_locks]
 
-/-! ## `decide` + batch against the specification -/
+/-! ## `decideOp` + batch against the specification -/
 
 theorem Rel.congr {st st' : RStore} {a : AbsState} (h : Rel st a) (hi : st'.items = st.items)
     (hu : st'.updated = st.updated) : Rel st' a := by
@@ -153,9 +153,9 @@ theorem rel_remove {st : RStore} {a : AbsState} (h : Rel st a) (k : Nat) :
   · simp [hk]
   · simp only [hk, if_false]; exact h.servers k'
 
-/-- what `decide` (after the `HGET`) plus the batch it chooses do to the store -/
+/-- what `decideOp` (after the `HGET`) plus the batch it chooses do to the store -/
 def decideApply (st : RStore) (clock : Int) (op : WOp) : RStore × WResult :=
-  match decide op (st.items[op.svr.addr.key]?) clock with
+  match decideOp op (st.items[op.svr.addr.key]?) clock with
   | .inl r => (st, r)
   | .inr (b, r) => (b.apply st, r)
 
@@ -165,7 +165,7 @@ theorem decideApply_refines {st : RStore} {a : AbsState} (h : Rel st a) (clock :
       (decideApply st clock op).2 = (specWrite a clock op).2 := by
   have hrow : a.getRow op.svr.addr = (st.items[op.svr.addr.key]?).map fun r =>
       (⟨r, (st.updated[op.svr.addr.key]?).getD 0⟩ : SRow) := h.servers _
-  unfold decideApply specWrite decide
+  unfold decideApply specWrite decideOp
   cases hk : op.kind with
   | add =>
     cases hex : st.items[op.svr.addr.key]? with
@@ -246,7 +246,7 @@ theorem write_refines_aux {st : RStore} {a : AbsState} (hrel : Rel st a) (clock 
   have href := decideApply_refines hrel clock op
   rw [runWriter_alone st clock op tok fresh hno]
   unfold decideApply at href
-  cases hd : decide op (st.items[op.svr.addr.key]?) clock with
+  cases hd : decideOp op (st.items[op.svr.addr.key]?) clock with
   | inl r =>
     rw [hd] at href
     refine ⟨by rw [← href.2], ?_, lockRound_locks st _ tok hno⟩
